@@ -76,7 +76,7 @@ fn permuted<R: Rng>(rng: &mut R, d: &SDesc) -> SDesc {
     p.substitutes.shuffle(rng);
     // for-all registrations before or after the per-type ones, rules by insert / extend / insert-if-absent
     p.globals_last = rng.gen_bool(0.5);
-    p.register_via = rng.gen_range(0..3);
+    p.register_via = rng.gen_range(0..5);
     p
 }
 
